@@ -47,9 +47,11 @@ Definition run_case (call : env -> helper -> list jsval -> outcome) (c : ecase) 
   find_proxy (call (ec_env c)) (ec_has_fn c) (ec_has_fnx c) (ec_tree c) (ec_url c) (ec_hostname c) (ec_url_hostname c).
 
 Definition ecase_model_ok (c : ecase) : bool := observed_is c (run_case call_helper c).
-Definition ecase_prop_ok (c : ecase) : bool := observed_is c (run_case spec_call c).
+Definition run_spec (c : ecase) : option fpresult :=
+  spec_find_proxy (ec_env c) (ec_has_fn c) (ec_has_fnx c) (ec_tree c) (ec_url c) (ec_hostname c) (ec_url_hostname c).
+Definition ecase_prop_ok (c : ecase) : bool := observed_is c (run_spec c).
 Definition ecase_outside (c : ecase) : bool :=
-  match run_case call_helper c, run_case spec_call c with
+  match run_case call_helper c, run_spec c with
   | Some PacOutside, _ | _, Some PacOutside => true
   | _, _ => false
   end.
@@ -57,7 +59,7 @@ Definition ecase_outside (c : ecase) : bool :=
 (* one pass per case: bit 0 = correspondence fails, bit 1 = oracle fails, bit 2 = outside the reference's domain *)
 Definition ecase_code (c : ecase) : N :=
   let m := run_case call_helper c in
-  let s := run_case spec_call c in
+  let s := run_spec c in
   (if observed_is c m then 0 else 1) + (if observed_is c s then 0 else 2) +
   (match m, s with Some PacOutside, _ | _, Some PacOutside => 4 | _, _ => 0 end).
 
